@@ -408,9 +408,11 @@ func main() {
 		}(i)
 	}
 	// 3. snapshots in parallel with the record workers
-	ns := []int{0, 1, 2, 257}
+	// 65535 / 65536 / 65537: the snapshot loader hands records to its map-filling
+	// goroutine in batches of 65536
+	ns := []int{0, 1, 2, 257, 65535, 65536, 65537}
 	if thor {
-		ns = append(ns, 3, 16, 1000)
+		ns = append(ns, 3, 16, 1000, 131072, 140000)
 	}
 	var snaps []snapOutcome
 	var smu sync.Mutex
